@@ -1497,6 +1497,9 @@ class GeoboxTiles:
                 src.base.footprint(4326, 2) & self.base.footprint(4326, 2)
             ).to_crs(self.base.crs)
 
+        if src_footprint.is_empty:
+            return {}
+
         xy_chunks_with_data = list(self.tiles(src_footprint))
         deps: Dict[Tuple[int, int], List[Tuple[int, int]]] = {}
 
